@@ -4,7 +4,119 @@
 
 package newick
 
+// ---------------------------------------------------------------------------
+// Scanner and token buffer (property C02): same abstract rune stream as the
+// Nexus reader: remaining(r) = runes ReadRune can still deliver
+// ---------------------------------------------------------------------------
+
+//@ func (*io/newick.Scanner).read
+//@   requires s != nil && s.r != nil
+//@   allocates iface
+//@   assigns stream(s.r)
+//@   ensures [consumes_one_rune_or_signals_end] (remaining(s.r) == old(remaining(s.r)) - 1 && canunread(s.r)) || (remaining(s.r) == old(remaining(s.r)) && old(remaining(s.r)) == 0 && result == 0 && !canunread(s.r))
+//@   ensures [non_negative] remaining(s.r) >= 0
+
+//@ func (*io/newick.Scanner).unread
+//@   requires s != nil && s.r != nil
+//@   allocates iface
+//@   assigns stream(s.r)
+//@   ensures [gives_back_at_most_the_last_rune] remaining(s.r) == old(remaining(s.r)) + (old(canunread(s.r)) ? 1 : 0) && !canunread(s.r)
+
+//@ func (*io/newick.Scanner).scanWhitespace
+//@   requires s != nil && s.r != nil
+//@   allocates iface, bytes.Buffer
+//@   assigns stream(s.r)
+//@   ensures [never_gives_back_more_than_it_took] remaining(s.r) <= old(remaining(s.r)) && remaining(s.r) >= 0
+//@   ensures [consumes_at_least_one_rune_unless_at_end] old(remaining(s.r)) > 0 ==> remaining(s.r) < old(remaining(s.r))
+//@   ensures [token] tok == WS
+//@   loop 1
+//@     assigns stream(s.r)
+//@     invariant [progress_so_far] remaining(s.r) >= 0 && remaining(s.r) <= old(remaining(s.r)) && (old(remaining(s.r)) > 0 ==> remaining(s.r) < old(remaining(s.r)))
+//@     decreases remaining(s.r)
+
+//@ func (*io/newick.Scanner).scanIdent
+//@   requires s != nil && s.r != nil
+//@   allocates iface, bytes.Buffer
+//@   assigns stream(s.r)
+//@   ensures [never_gives_back_more_than_it_took] remaining(s.r) <= old(remaining(s.r)) && remaining(s.r) >= 0
+//@   ensures [consumes_at_least_one_rune_unless_at_end] old(remaining(s.r)) > 0 ==> remaining(s.r) < old(remaining(s.r))
+//@   loop 1
+//@     assigns stream(s.r)
+//@     invariant [progress_so_far] remaining(s.r) >= 0 && remaining(s.r) <= old(remaining(s.r)) && (old(remaining(s.r)) > 0 ==> remaining(s.r) < old(remaining(s.r)))
+//@     decreases remaining(s.r)
+
+//@ func (*io/newick.Scanner).Scan
+//@   requires s != nil && s.r != nil
+//@   allocates iface, bytes.Buffer
+//@   assigns stream(s.r)
+//@   ensures [never_gives_back_more_than_it_took] remaining(s.r) <= old(remaining(s.r)) && remaining(s.r) >= 0
+//@   ensures [a_token_other_than_EOF_costs_at_least_one_rune] tok != EOF ==> remaining(s.r) < old(remaining(s.r))
+//@   ensures [at_the_end_only_EOF_is_returned] old(remaining(s.r)) == 0 ==> tok == EOF
+//@   ensures [progress_or_end_of_input] remaining(s.r) < old(remaining(s.r)) || (old(remaining(s.r)) == 0 && tok == EOF)
+
+//@ func (*io/newick.Parser).scan
+//@   requires p != nil && p.s != nil && p.s.r != nil && (p.buf.n == 0 || p.buf.n == 1)
+//@   allocates iface, bytes.Buffer
+//@   assigns stream(p.s.r), p.buf
+//@   ensures [measure_does_not_grow] 2 * remaining(p.s.r) + p.buf.n <= old(2 * remaining(p.s.r) + p.buf.n) || (tok == EOF && remaining(p.s.r) == old(remaining(p.s.r)))
+//@   ensures [a_token_other_than_EOF_decreases_the_measure] tok != EOF ==> 2 * remaining(p.s.r) + p.buf.n < old(2 * remaining(p.s.r) + p.buf.n)
+//@   ensures [buffer_flag] p.buf.n == 0 && remaining(p.s.r) >= 0
+//@   ensures [progress_or_end_of_input] 2 * remaining(p.s.r) + p.buf.n < old(2 * remaining(p.s.r) + p.buf.n) || (old(2 * remaining(p.s.r) + p.buf.n) == 0 && tok == EOF)
+
+//@ define pw(p *Parser) bool = p != nil && p.s != nil && p.s.r != nil && (p.buf.n == 0 || p.buf.n == 1)
+//@ define pm(p *Parser) int = 2 * remaining(p.s.r) + p.buf.n
+
+//@ func (*io/newick.Parser).unscan
+//@   requires pw(p)
+//@   assigns p.buf
+//@   ensures [one_token_pushed_back] p.buf.n == 1 && pw(p)
+
+//@ func (*io/newick.Parser).scanIgnoreWhitespace
+//@   requires pw(p)
+//@   allocates iface, bytes.Buffer
+//@   assigns stream(p.s.r), p.buf
+//@   ensures [well_formed] pw(p) && p.buf.n == 0
+//@   ensures [progress_or_end_of_input] pm(p) < old(pm(p)) || (old(pm(p)) == 0 && tok == EOF)
+//@   ensures [measure_does_not_grow] pm(p) <= old(pm(p))
+//@   ensures [a_token_other_than_EOF_decreases_the_measure] tok != EOF ==> pm(p) < old(pm(p))
+
+//@ func (*io/newick.Parser).consumeComment
+//@   requires pw(p)
+//@   allocates iface, bytes.Buffer
+//@   assigns stream(p.s.r), p.buf
+//@   ensures [well_formed] pw(p)
+//@   ensures [measure_does_not_grow] pm(p) <= old(pm(p))
+//@   loop 1
+//@     assigns stream(p.s.r), p.buf
+//@     invariant [well_formed] pw(p) && p.s == old(p.s) && p.s.r == old(p.s.r)
+//@     invariant [measure_does_not_grow] pm(p) <= old(pm(p))
+//@     decreases pm(p) + (commenttoken == EOF ? 0 : 1)
+
+//@ func (*io/newick.NodeStack).Clear
+//@   requires ns != nil
+//@   assigns ns.elt
+//@   ensures [emptied] len(ns.elt) == 0
+//@   loop 1
+//@     assigns el.e, el.n
+
+// ---------------------------------------------------------------------------
+// parseIter (properties C01, C02): every iteration consumes input or returns;
+// a label after ")" is either a node name or a support (with optional p-value),
+// never both
+// ---------------------------------------------------------------------------
+
+//@ func (*io/newick.Parser).parseIter
+//@   flag noframe
+//@   requires pw(p) && t != nil && level != nil
+//@   ensures [well_formed] pw(p)
+//@   loop 1
+//@     invariant [well_formed] pw(p) && p.s == old(p.s) && p.s.r == old(p.s.r) && nodeStack != nil
+//@     invariant [measure_does_not_grow] pm(p) <= old(pm(p))
+//@     decreases pm(p)
+//@     step [a_label_is_a_name_or_a_support_never_both] node != nil && edge != nil && node.name != atHead(node.name) ==> edge.support == atHead(edge.support) && edge.pvalue == atHead(edge.pvalue)
+//@     step [a_support_label_leaves_the_name_alone] node != nil && edge != nil && edge.support != atHead(edge.support) ==> node.name == atHead(node.name)
+
 //@ func (*io/newick.Parser).Parse
 //@   flag treeop
-//@   requires p != nil
+//@   requires pw(p)
 //@   ensures [tree_or_error] result1 == nil ==> result0 != nil
